@@ -84,15 +84,15 @@ theorem C09_first_round_complete (s : St) (g : Gs) (hc : Cov s.tbl g.todo) (h : 
 /-- a debugging session: `continue` commands, each followed by the calls observed until the next prompt -/
 def session (s : St) (cmds : List (List Ev)) : St := cmds.foldl (fun s es => run (cmdContinue s) es) s
 
-theorem inv_run {s : St} (es : List Ev) (h : Inv s) : Inv (run s es) := by
+theorem C09_inv_run {s : St} (es : List Ev) (h : Inv s) : Inv (run s es) := by
   induction es generalizing s with
   | nil => exact h
   | cons e es ih => exact ih (inv_step e h)
 
-theorem inv_session {s : St} (cmds : List (List Ev)) (h : Inv s) : Inv (session s cmds) := by
+theorem C09_inv_session {s : St} (cmds : List (List Ev)) (h : Inv s) : Inv (session s cmds) := by
   induction cmds generalizing s with
   | nil => exact h
-  | cons es cmds ih => exact ih (inv_run es (inv_cmdContinue h))
+  | cons es cmds ih => exact ih (C09_inv_run es (inv_cmdContinue h))
 
 /-- `C09_all_stop`, tracer side, for EVERY session and EVERY stream of kernel answers: start at a prompt where no
 thread is marked running and no group stop is in progress; issue any number of `continue` commands, the kernel
@@ -105,7 +105,7 @@ theorem C09_all_marked_stopped (s : St) (cmds : List (List Ev))
       runningIds (session s cmds).tbl = [] := by
   have hI : Inv s := ⟨covOK_of_none h1, by intro g h; simp [h1] at h, by intro g h; simp [h1] at h,
     fun _ _ => h2, by intro a r h; simp [h0] at h⟩
-  exact (inv_session cmds hI).prompt
+  exact (C09_inv_session cmds hI).prompt
 
 /-- … and while a group stop is in progress every thread marked running is still on its list (the invariant the
 statement above is proved with), in every reachable state. -/
@@ -115,7 +115,7 @@ theorem C09_group_stop_covers (s : St) (cmds : List (List Ev)) (es : List Ev)
     ∀ t ∈ runningIds (run (cmdContinue (session s cmds)) es).tbl, t ∈ accG g := by
   have hI : Inv s := ⟨covOK_of_none h1, by intro g h; simp [h1] at h, by intro g h; simp [h1] at h,
     fun _ _ => h2, by intro a r h; simp [h0] at h⟩
-  exact (inv_run es (inv_cmdContinue (inv_session cmds hI))).cov g hg
+  exact (C09_inv_run es (inv_cmdContinue (C09_inv_session cmds hI))).cov g hg
 
 -- non-vacuity: a two-thread session in which the second thread is absorbed by the group stop (test, not a theorem)
 #guard
@@ -138,5 +138,121 @@ theorem C09_rewind_exact (s : St) (t new old : Nat) (r : Ans)
   all_goals (split at h <;> simp_all [die])
   all_goals (split at h <;> simp_all [die])
   all_goals (split at h <;> simp_all [die])
+
+/-- After any accepted rewind the thread that trapped is marked stopped — whether its hit is reported now, later, or
+was absorbed by the group stop of another thread's event. -/
+theorem C09_rewound_thread_marked_stopped (s : St) (t new old : Nat) (r : Ans) (haw : s.aw = .setpc t old)
+    (h : ∀ w, (step s (.setpc t new old r)).aw ≠ .dead w) :
+    t ∉ runningIds (step s (.setpc t new old r)).tbl := by
+  have hr := C09_rewind_exact s t new old r h
+  have h1 : step s (.setpc t new old r) = groupStop { s with tbl := s.tbl.setSt t .stop } (some t) (.brk t new) := by
+    simp [step, haw, hr.1, hr.2.1, hr.2.2.1, hr.2.2.2]
+  rw [h1]
+  intro hm
+  exact not_running_after_setStop s.tbl t ((groupStop_mreach _ _ _).running_subset t hm)
+
+/-- A breakpoint hit that arrives through `resume`'s `waitpid(-1)` (no group stop in progress) is the one this
+`continue` reports: after its rewind the machine is either back at the prompt reporting exactly this thread and
+address, or inside the group stop that will return exactly this thread and address. -/
+theorem C09_resume_hit_is_reported (s : St) (t new old : Nat) (haw : s.aw = .setpc t old) (hg : s.gs = none)
+    (ho : s.outer = .resume) (h : ∀ w, (step s (.setpc t new old .ok)).aw ≠ .dead w) :
+    let s' := step s (.setpc t new old .ok)
+    (s'.aw = .idle ∧ s'.last = some (.bp t new)) ∨ (∃ g, s'.gs = some g ∧ g.ret = .brk t new) := by
+  have hr := C09_rewind_exact s t new old .ok h
+  have h1 : step s (.setpc t new old .ok) = groupStop { s with tbl := s.tbl.setSt t .stop } (some t) (.brk t new) := by
+    simp [step, haw, hr.1, hr.2.1, hr.2.2.1]
+  simp only [h1]
+  simp only [groupStop, hg, pick, pick1, gsEnd, deliverOuter, ho, toPrompt]
+  repeat' split
+  all_goals simp
+
+/-- A breakpoint hit that arrives while a group stop is in progress (the stop of another thread's event) is absorbed:
+it does not change what the command will report — the group stop keeps its return value, or the command returns
+that value. -/
+theorem C09_concurrent_hit_is_absorbed (s : St) (t new old : Nat) (g : Gs) (haw : s.aw = .setpc t old)
+    (hg : s.gs = some g) (hc : g.cur = some t) (ho : s.outer = .resume)
+    (hq : ∀ t' sg, g.ret = .sig t' sg → isQuiet sg = false)   -- group stops are only started for non-quiet signals
+    (h : ∀ w, (step s (.setpc t new old .ok)).aw ≠ .dead w) :
+    let s' := step s (.setpc t new old .ok)
+    (s'.aw = .idle ∧ s'.last = some g.ret.reason) ∨ (∃ g', s'.gs = some g' ∧ g'.ret = g.ret) := by
+  have hr := C09_rewind_exact s t new old .ok h
+  have h1 : step s (.setpc t new old .ok) = groupStop { s with tbl := s.tbl.setSt t .stop } (some t) (.brk t new) := by
+    simp [step, haw, hr.1, hr.2.1, hr.2.2.1]
+  simp only [h1]
+  simp only [groupStop, hg, ret, hc, deliverGs, pick, pick1, gsEnd, deliverOuter, ho, toPrompt, GRet.reason]
+  repeat' split
+  all_goals simp_all [GRet.reason]
+  all_goals (rename_i hs _ _; simp [hq _ _ hs] at *)
+
+/-! ## Exactly once beyond `continue`-only histories: FALSE of the unchanged code -/
+
+/-- Full statement: a hit of a USER breakpoint is never swallowed, whatever other breakpoints are active. -/
+def C09_every_user_hit_reported_full : Prop :=
+  ∀ (kinds : List BpKind) (owner : Bool), absorbsSilently kinds .user owner = false
+
+/-- the named hypothesis: no temporary breakpoint is active (true of `continue`-only histories) -/
+def noTemporaries (kinds : List BpKind) : Bool := kinds.all (fun k => k != .temporary && k != .temporaryAsync)
+
+/-- Proved part: without temporary breakpoints (no step / next / finish in flight) every user-breakpoint hit goes
+through the reporting path — the path the theorems above are about. -/
+theorem C09_every_user_hit_reported_partial (kinds : List BpKind) (owner : Bool) (h : noTemporaries kinds = true) :
+    absorbsSilently kinds .user owner = false := by
+  have hn : kinds.any (fun k => k == .temporary || k == .temporaryAsync) = false := by
+    apply Bool.eq_false_iff.mpr
+    intro hany
+    obtain ⟨k, hk, hk2⟩ := List.any_eq_true.mp hany
+    have := List.all_eq_true.mp h k hk
+    cases k <;> simp_all
+  simp [absorbsSilently, hn]
+
+/-- Counterexample (replayed on the real debugger: key `arrival-during-step-of-another-thread-not-reported`,
+corpus/C09/next-absorbs-hits-of-other-threads.req): while one thread executes `next` (a temporary breakpoint is
+planted and all threads are resumed) the hit of ANOTHER thread at a user breakpoint is stepped over silently. -/
+theorem C09_every_user_hit_reported_counterexample : ¬ C09_every_user_hit_reported_full := by
+  intro h
+  have := h [.user, .temporary] false
+  simp [absorbsSilently] at this
+
+/-! ## Non-vacuity (tests, not theorems): concrete states that meet the hypotheses above -/
+
+/-- three threads; thread 0 sits on the breakpoint at 100 after the last report -/
+def demo0 : St :=
+  { tbl := { rows := [⟨0, 1, .stop⟩, ⟨1, 2, .stop⟩, ⟨2, 3, .stop⟩], next := 4 }, bps := [(100, 72), (200, 85)],
+    fpc := some 100, last := some (.bp 0 100) }
+
+/-- step over the breakpoint, continue everybody, thread 1 traps at 200 through `waitpid(-1)` -/
+def demoTrap : List Ev :=
+  [.poke 100 72, .sstep 0 0 .ok, .wait (some 0) (.sig 0 5), .siginfo 0 1 104 .ok, .poke 100 204,
+   .cont 2 0 .ok, .cont 0 0 .ok, .cont 1 0 .ok, .wait none (.sig 1 5), .siginfo 1 128 201 .ok]
+
+-- hypotheses of C09_rewind_exact / C09_resume_hit_is_reported: an accepted rewind outside a group stop
+#guard (run (cmdContinue demo0) demoTrap).aw == .setpc 1 201
+#guard (run (cmdContinue demo0) demoTrap).gs == none
+#guard (step (run (cmdContinue demo0) demoTrap) (.setpc 1 200 201 .ok)).aw == .intr
+#guard ((step (run (cmdContinue demo0) demoTrap) (.setpc 1 200 201 .ok)).gs.map (·.ret)) == some (.brk 1 200)
+-- a wrong rewind (two bytes) and a rewind to a non-breakpoint are refused
+#guard (step (run (cmdContinue demo0) demoTrap) (.setpc 1 199 201 .ok)).aw == .dead "reject:setpc"
+-- hypotheses of C09_concurrent_hit_is_absorbed: thread 2 is interrupted and turns out to have trapped at 100;
+-- thread 0 exits while the group stop is in progress; the command reports thread 1 at 200, nobody marked running
+def demoAbsorb : List Ev :=
+  demoTrap ++ [.setpc 1 200 201 .ok, .intr 2 .ok, .wait (some 2) (.sig 2 5), .siginfo 2 128 101 .ok]
+#guard (run (cmdContinue demo0) demoAbsorb).aw == .setpc 2 101
+#guard ((run (cmdContinue demo0) demoAbsorb).gs.map (·.cur)) == some (some 2)
+def demoEnd : List Ev :=
+  demoAbsorb ++ [.setpc 2 100 101 .ok, .intr 0 .ok, .wait (some 0) (.evexit 0), .cont 0 0 .ok]
+#guard (run (cmdContinue demo0) demoEnd).aw == .idle
+#guard (run (cmdContinue demo0) demoEnd).last == some (.bp 1 200)
+#guard (run (cmdContinue demo0) demoEnd).tbl.allStopped
+#guard (run (cmdContinue demo0) demoEnd).tbl.keys == [1, 2]
+-- a thread created during the group stop (clone event of the interrupted thread) is added stopped
+def demoClone : List Ev :=
+  demoTrap ++ [.setpc 1 200 201 .ok, .intr 2 .ok, .wait (some 2) (.clone 2), .evmsg 2 3 .ok, .wait (some 3) (.evstop 3 19),
+    .intr 0 .ok, .wait (some 0) (.evstop 0 19)]
+#guard (run (cmdContinue demo0) demoClone).aw == .idle
+#guard (run (cmdContinue demo0) demoClone).tbl.keys == [0, 1, 2, 3]
+#guard (run (cmdContinue demo0) demoClone).tbl.allStopped
+-- omitting a PTRACE_CONT, or interrupting a stopped tracee, is rejected
+#guard (run (cmdContinue demo0) [.poke 100 72, .sstep 0 0 .ok, .wait (some 0) (.sig 0 5), .siginfo 0 1 104 .ok,
+   .poke 100 204, .cont 2 0 .ok, .cont 0 0 .ok, .wait none (.sig 1 5)]).aw == .dead "reject:wait-before-all-continued"
 
 end BsVerif.Tracer
